@@ -67,13 +67,39 @@ def _with_fallback(tuA, tuB_get, fn, **kw):
     return lg
 
 
+def _work_cpp(ti, on, t, tu):
+    """C++: -O1 IR, memory obligations + heap discipline (double free, bad free, use after free, leak at exit); valid objects only"""
+    out = []
+    mx = codec.max_bytes(t)
+    for bs in sorted({0, 1, max(mx - 1, 0), mx, mx + 2}) if _TIER[0] == "quick" else range(0, mx + 3):
+        t0 = time.time()
+        try:
+            lg = codec.ser_queries(tu, bs, check_ub="mem", functional=False)
+        except Exception as e:
+            lg = codec.QueryLog(); lg.unknown.append(f"{type(e).__name__}: {str(e)[-300:]}")
+        out.append((ti, on, f"serialize buf={bs} (memory + heap obligations)", lg, tu, time.time() - t0))
+    for L in cc.des_lengths(t, _TIER[0]):
+        t0 = time.time()
+        try:
+            lg = codec.des_queries(tu, L, check_ub="mem", functional=False, uninit_dst=False)
+        except Exception as e:
+            lg = codec.QueryLog(); lg.unknown.append(f"{type(e).__name__}: {str(e)[-300:]}")
+        out.append((ti, on, f"deserialize L={L} (memory + heap obligations)", lg, tu, time.time() - t0))
+    return out
+
+
 def _work(a):
     ti, on = a
     t = _TYPES[ti]
     out = []
     try:
-        tu = cc.unit_for(t, on, "A")
+        tu = cc.unit_for(t, on, "A")        # C++ option sets come back as -O1 units (memory obligations, heap discipline)
         tu.budget_s = 60.0 if _TIER[0] == "quick" else 240.0
+        if cc.is_cpp(on):
+            return _work_cpp(ti, on, t, tu)
+    except cc.NotCovered as e:
+        lg = codec.QueryLog(); lg.notes.append(f"NOT COVERED [{on}]: {e}")
+        return [(ti, on, "not covered", lg, None, 0.0)]
     except Exception as e:
         lg = codec.QueryLog(); lg.unknown.append(f"build failed: {str(e)[-300:]}")
         return [(ti, on, "build", lg, None, 0.0)]
@@ -101,7 +127,7 @@ def _work(a):
 def main(tier: str) -> int:
     rep = common.Report("C04", tier, "other")
     _TIER[0] = tier
-    optnames = ["default", "little+asserts"] if tier == "quick" else list(cc.OPTSETS)
+    optnames = ["default", "little+asserts", "cpp14"] if tier == "quick" else list(cc.OPTSETS)
     with common.scratch("nvc04_") as d:
         types, feats = cc.prepare(tier, d, optnames)
         _TYPES[:] = types
@@ -119,7 +145,8 @@ def main(tier: str) -> int:
                        "divisor != 0, nsw arithmetic does not overflow, memcpy ranges disjoint, no write to const objects, no abort/assert reached",
                        "getelementptr-inbounds results outside [0,size] that are never dereferenced are recorded as notes (no sanitizer can confirm them)",
                        "leak freedom is trivial for C (no allocation); C++ heap discipline is staged"]
-    rep.not_covered = ["C++14/17 variants (staged)", "capacity-override builds (thorough tier only, when enabled)", "types not in the corpus"]
+    rep.not_covered = ["C++: arithmetic obligations (only -O1 IR is executed), types with bit arrays, pmr/cetl flavours; C++17 std::variant in the thorough tier only",
+                       "capacity-override builds", "types not in the corpus"]
     rep.extra["explanation"] = ("llsym symbolic execution with UB/bounds obligations on; every path must end in a documented return code with "
                                 "size <= supplied size; the outcome of a deserialization must not depend on the prior destination bytes (syntactic check, else two-copy z3 query)")
     rep.extra["trusted_base"] = ["clang 14", "z3 5.1", "llsym interpreter and its memory model"]
